@@ -208,6 +208,7 @@ type DStep struct {
 	Size    int      `json:"size,omitempty"`
 	Bytes   int      `json:"bytes,omitempty"`
 	Dup     bool     `json:"dup,omitempty"` // pub QoS 2: the first copy already carries DUP=1
+	Clean   bool     `json:"clean,omitempty"` // reconnect: CleanSession of the second CONNECT
 }
 
 type DCase struct {
@@ -222,6 +223,10 @@ type invocation struct {
 
 type dreq struct {
 	filters map[string]bool // granted and not unsubscribed
+	// stale: the request was made on an earlier connection of the same Client object;
+	// the server has no session for it any more (SessionPresent=0). Whether its
+	// callback still sees matching messages is left open; it never sees others.
+	stale bool
 }
 
 type dresult struct {
@@ -302,6 +307,9 @@ func runDispatch(c DCase) (res dresult) {
 				}
 			}
 			g := per[ri]
+			if r.stale && g <= k {
+				continue
+			}
 			switch {
 			case k == 0 && g != 0:
 				return fmt.Sprintf("%s: callback of request %d was invoked %d time(s) for topic %q, which none of its subscribed filters %v matches", where, ri, g, topic, keysOf(r.filters))
@@ -467,6 +475,24 @@ func runDispatch(c DCase) (res dresult) {
 			} else if f := judge(where, "", nil, false); f != "" {
 				return dresult{Fail: f}
 			}
+		case "reconnect":
+			// Disconnect, then Connect on the same Client object; the server starts from
+			// nothing (SessionPresent=0): exchanges that were open are forgotten, packet
+			// identifiers start again
+			if len(q2) > 0 {
+				cls["reconnect-with-an-open-qos2-exchange"] = true
+			}
+			if err := s.redial(st.Clean); err != nil {
+				return dresult{Incon: where + ": " + err.Error()}
+			}
+			cls["same-client-object-connected-again"] = true
+			for _, r := range reqs {
+				r.stale = true
+			}
+			q2, q2order = map[uint16]*open2{}, nil
+			if f := judge(where, "", nil, false); f != "" {
+				return dresult{Fail: f}
+			}
 		case "filler":
 			// unrelated inbound traffic (PINGRESPs nobody waits for would be dropped; use QoS 0 publishes on a topic nobody subscribed)
 			if len(q2) > 0 && st.Bytes >= 16384 {
@@ -505,6 +531,22 @@ var dTopics = []string{"a", "b", "a/b", "a/b/cc", "b/b", "cc/x/a", "cc", "$SYS/x
 func genDispatch(t *rapid.T, q2heavy bool) DCase {
 	var c DCase
 	ids := []uint16{1, 2, 3, 9}
+	if rapid.IntRange(0, 7).Draw(t, "resume-scenario") == 0 {
+		// an inbound QoS 2 exchange is left open, the application reconnects with the same
+		// Client object, and the server (which starts from nothing) reuses the identifier
+		id := rapid.SampledFrom(ids).Draw(t, "rs-id")
+		c.Steps = append(c.Steps,
+			DStep{K: "sub", Filters: []string{"a/#"}, Codes: []byte{2}},
+			DStep{K: "pub", Topic: "a/b", QoS: 2, ID: id, Size: 20})
+		if rapid.Bool().Draw(t, "rs-more") {
+			c.Steps = append(c.Steps, DStep{K: "pub", Topic: "a", QoS: 2, ID: id + 1, Size: 6}, DStep{K: "pubrel"})
+		}
+		c.Steps = append(c.Steps,
+			DStep{K: "reconnect", Clean: rapid.Bool().Draw(t, "rs-clean")},
+			DStep{K: "sub", Filters: []string{rapid.SampledFrom([]string{"a/#", "a/b", "#"}).Draw(t, "rs-f")}, Codes: []byte{1}},
+			DStep{K: "pub", Topic: "a/b", QoS: 2, ID: id, Size: 200},
+			DStep{K: "pubrel"})
+	}
 	for i, n := 0, rapid.IntRange(4, 30).Draw(t, "nsteps"); i < n; i++ {
 		k := rapid.IntRange(0, 19).Draw(t, "k")
 		if q2heavy && k < 6 {
@@ -542,6 +584,8 @@ func genDispatch(t *rapid.T, q2heavy bool) DCase {
 			c.Steps = append(c.Steps, DStep{K: "pub", Topic: rapid.SampledFrom(dTopics).Draw(t, "t"), QoS: q, ID: rapid.SampledFrom(ids).Draw(t, "id"), Size: rapid.SampledFrom([]int{6, 20, 200, 3000}).Draw(t, "size"), Dup: q == 2 && rapid.IntRange(0, 4).Draw(t, "firstdup") == 0})
 		case k < 18:
 			c.Steps = append(c.Steps, DStep{K: "pubrel", ID: rapid.SampledFrom(ids).Draw(t, "rid")})
+		case k == 18 && rapid.IntRange(0, 2).Draw(t, "reconnect") == 0:
+			c.Steps = append(c.Steps, DStep{K: "reconnect", Clean: rapid.Bool().Draw(t, "rclean")})
 		default:
 			c.Steps = append(c.Steps, DStep{K: "filler", Bytes: rapid.SampledFrom([]int{6000, 20000, 50000}).Draw(t, "fb")})
 		}
